@@ -170,6 +170,13 @@ func c14Work(c *ctx) {
 						r := s.Next(n, true)
 						nx = append(nx, []int{n, r.GetYear()*10000 + r.GetMonth()*100 + r.GetDay(), r.GetHour()*3600 + r.GetMinute()*60 + r.GetSecond()})
 					}
+					// a few long walks (a year holds about 250 working days): across two year ends
+					if d == 1 && (m == 1 || m == 7) {
+						for _, n := range []int{250, -250, 520, -520} {
+							r := s.Next(n, true)
+							nx = append(nx, []int{n, r.GetYear()*10000 + r.GetMonth()*100 + r.GetDay(), r.GetHour()*3600 + r.GetMinute()*60 + r.GetSecond()})
+						}
+					}
 					row["nx"] = nx
 					z := s.Next(0, true)
 					row["z"] = []int{z.GetYear()*10000 + z.GetMonth()*100 + z.GetDay()}
